@@ -28,8 +28,9 @@ BOUNDS = {'quick': '(a) len<=4 x <=1 option deviation; (b) N<=65537; (c) len<=2'
 ASSUMPTIONS = ['a pass that reported errors is the last pass (no repass after errors)',
                'warnings are re-emitted in every pass; the summary counts the final pass']
 
-K = ['ok', 'err', 'rng', 'warn', 'perr', 'fatal', 'fwd']
-SRC = {'ok': '\tnop', 'err': '\tfoo', 'rng': '\tdb 300', 'warn': '\twarning "w"', 'perr': '\terror "e"', 'fatal': '\tfatal "f"', 'fwd': '\tdw later'}
+K = ['ok', 'err', 'rng', 'warn', 'perr', 'fatal', 'fwd', 'oif']
+SRC = {'ok': '\tnop', 'err': '\tfoo', 'rng': '\tdb 300', 'warn': '\twarning "w"', 'perr': '\terror "e"', 'fatal': '\tfatal "f"', 'fwd': '\tdw later',
+       'oif': '\tif 1'}       # never closed: one error raised at the END of the source, outside every line
 OPTS = [['-Werror'], ['-maxerrors', '1'], ['-maxerrors', '2'], ['-maxerrors', '3'], ['-x'], ['-x', '-x'], ['-n'], ['-q'],
         ['-E', 'err.log'], ['-E', '!1'], ['-gnuerrors'], ['-w']]
 
@@ -66,6 +67,12 @@ def model(seq, opt):
             elif k == 'fatal':
                 return dict(rc=3, p=False, e=None, w=None, le=None, lw=None)
             if mx and e >= mx and k in ('err', 'rng', 'perr', 'warn') and (k != 'warn' or werr):
+                return dict(rc=3, p=False, e=None, w=None, le=None, lw=None)
+        if 'oif' in seq:
+            # one "missing ENDIF" for the whole source, however many are open
+            e += 1
+            le += 1
+            if mx and e >= mx:
                 return dict(rc=3, p=False, e=None, w=None, le=None, lw=None)
         if e:
             break
@@ -203,7 +210,7 @@ def ev_hist(case):
             if not mw or int(mw.group(1)) != m['w']:
                 return core.R(False, 'summary-warn', 'summary/warnings', 'summary warnings %s, model %d on %s' % (mw and mw.group(1), m['w'], d))
         ch = channel(o, opt)
-        heads = [l for l in re.split(r'[\r\n]', ch) if re.match(r'(> > > a\.asm\(\d+\)|a\.asm:\d+[: ])', l)]
+        heads = [l for l in re.split(r'[\r\n]', ch) if re.match(r'(> > > a\.asm\(\d+\)|a\.asm:\d+[: ]|> > > INTERNAL|INTERNAL:)', l)]
         nw = sum(1 for l in heads if 'warning:' in l or re.search(r'warning #\d+:', l))
         ne = len(heads) - nw
         if (ne, nw) != (m['le'], m['lw']):
